@@ -592,9 +592,10 @@ class Keyvalues:
                         'An extra closing bracket was added which would '
                         'close the outermost level.',
                     ) from None
-                if single_block and cur_block is root:
+                if single_block and cur_block is root and root._value:
                     # Single-block mode - we just exited out of the main block.
-                    # Return our child.
+                    # Return our child. (If the block was disabled by its [flag] the
+                    # root is still empty: keep looking for an enabled alternative.)
                     return root[0]
                 # We know this isn't a leaf KV, we made it earlier.
                 assert not isinstance(cur_block._value, str)
